@@ -116,7 +116,7 @@ bool line_plain(Ctx& X, const std::vector<double>& vals, const char* cname, int 
     std::vector<std::pair<T, T>> calls2;
     Gudhi::persistent_cohomology::compute_persistence_of_function_on_line(in, [&](T b, T d) { calls2.emplace_back(b, d); }, std::less<T>());
     X.c.count("cmp.line.default_comparator_same_calls");
-    if (calls != calls2) { X.violation("line.default_comparator_same_calls", "line,cmp=default", "input " + txt + ": default comparator and std::less<T> give different calls"); return false; }
+    if (calls != calls2) { X.violation("line.default_comparator_same_calls", "line,cmp=default", [&] { return "input " + txt + ": default comparator and std::less<T> give different calls"; }); return false; }
     return check_line(X, in, std::less<T>(), [](T x) { return (double)x; }, [](T x) { return x == std::numeric_limits<T>::infinity(); }, "less_T", txt);
   }
 }
